@@ -538,3 +538,339 @@ Section SiftTie.
     Qed.
   End Fixed.
 End SiftTie.
+
+(* ============================================================================================== *)
+(* mask_sift: the outer loop                                                                      *)
+(* ============================================================================================== *)
+Section MaskTie.
+  Variable V : Type.
+  Variable vzero : V.
+  Variable vadd vsub : V -> V -> V.
+  Variable small : V -> bool.
+  Variable gm : V -> val V -> val V -> option (V * bool).
+  Variable fs : list (val V).
+  Variable mode : amp_mode3.
+  Variable ma : option (list (val V)).
+  Variable sd0 : val V.
+
+  Local Notation mask_prims := (SkeletonPrims.mask_prims V vzero vadd vsub small gm).
+  Local Notation mask_extract := (SkeletonPrims.mask_extract V vzero gm fs mode ma sd0).
+  Local Notation sd_at := (SkeletonPrims.sd_at V vzero mode sd0).
+  Local Notation amp_at := (SkeletonPrims.amp_at V vzero mode ma sd0).
+  Local Notation ma_val := (SkeletonPrims.ma_val V ma).
+  Local Notation mask_env0 := (SkeletonPrims.mask_env0 V fs mode ma sd0).
+
+  Definition mask_split := Eval cbv in split_at_while (spine prog_mask_sift).
+  Definition mask_pre : list stmt := match mask_split with Some (p, _, _) => p | None => [] end.
+  Definition mask_cond : expr := match mask_split with Some (_, (c, _), _) => c | None => ENone end.
+  Definition mask_body : stmt := match mask_split with Some (_, (_, b), _) => b | None => SSkip end.
+  Definition mask_post : list stmt := match mask_split with Some (_, _, q) => q | None => [] end.
+
+  Lemma mask_split_ok :
+    split_at_while (spine prog_mask_sift) = Some (mask_pre, (mask_cond, mask_body), mask_post).
+  Proof. reflexivity. Qed.
+
+  (* the body in three segments: amplitude / extraction and accumulation / exit tests and counter *)
+  Definition mask_segA : list stmt := Eval cbv in firstn 3 (spine mask_body).
+  Definition mask_segB : list stmt := Eval cbv in firstn 3 (skipn 3 (spine mask_body)).
+  Definition mask_segC : list stmt := Eval cbv in skipn 6 (spine mask_body).
+
+  Lemma mask_segments : spine mask_body = (mask_segA ++ mask_segB ++ mask_segC)%list.
+  Proof. reflexivity. Qed.
+
+  Lemma mask_segC_length : length mask_segC = 3%nat.
+  Proof. reflexivity. Qed.
+
+  Ltac ev :=
+    cbv beta iota zeta delta
+        [exec eval eval_truth bind map_res truthy do_cmp do_arith do_index nat_cmp nat_arith
+         upd lookup env_of assign_all cmp_name ar_name frame overlay
+         SkeletonPrims.mask_prims prims_of table_lookup mask_table keys_are is_opaque0 sig_identity iter_env
+         mask_names mask_entry SkeletonPrims.mask_env0 mask_args params_mask_sift cap_val option_map
+         SkeletonPrims.ma_val mode_str amp_entry
+         r_step_factor r_nphases r_nprocesses r_verbose r_imf_opts r_envelope_opts r_extrema_opts
+         mask_split mask_pre mask_cond mask_body mask_post mask_segA mask_segB mask_segC
+         String.eqb Ascii.eqb Bool.eqb fst snd andb negb orb].
+  Ltac ev1 := ev; repeat (progress (cbn [Nat.eqb Nat.leb Nat.ltb cols_of app]; rewrite ?sigs_map, ?nth_error_map; oracle_rw; cbn [option_map]); ev).
+  Ltac steps :=
+    set (K := exec_list mask_prims);
+    assert (K_cons : forall s t f e, K (s :: t) f e =
+                       match exec mask_prims s f e with Normal e' => K t f e' | o => o end) by reflexivity;
+    assert (K_nil : forall f e, K [] f e = Normal e) by reflexivity;
+    repeat (rewrite K_cons; ev1); rewrite ?K_nil; ev1.
+
+  Section Fixed.
+    Variable k : option nat.                   (* max_imfs = None, or S k *)
+    Variable rmf : bool.                       (* ret_mask_freq *)
+    Variable X : V.
+    Variable o : mask_rest V.
+
+    Local Notation cap := (option_map S k).
+    Local Notation peel := (peel_loop V vzero vadd vsub small mask_extract).
+    Local Notation resid := (residual V vzero vadd vsub X).
+
+    (* the environment inside the loop: [extra] holds imf (and amp, next_imf between the segments) *)
+    Definition mask_head (extra : list (string * val V)) (L : nat) (r : V) (sdv : val V) (cs : bool)
+               (junk : string -> option (val V)) : env V :=
+      env_of mask_names
+        (overlay extra
+           (overlay [ ("X", VSig X);
+                      ("mask_amp", ma_val);
+                      ("mask_amp_mode", VStr (mode_str mode));
+                      ("mask_freqs", VList fs);
+                      ("mask_step_factor", r_step_factor V o);
+                      ("ret_mask_freq", VBool rmf);
+                      ("max_imfs", cap_val cap);
+                      ("sift_thresh", VOpaque "sift_thresh" []);
+                      ("nphases", r_nphases V o);
+                      ("nprocesses", r_nprocesses V o);
+                      ("verbose", r_verbose V o);
+                      ("imf_opts", r_imf_opts V o);
+                      ("envelope_opts", r_envelope_opts V o);
+                      ("extrema_opts", r_extrema_opts V o);
+                      ("sd", sdv);
+                      ("continue_sift", VBool cs);
+                      ("imf_layer", VNat L);
+                      ("proto_imf", VSig r) ] junk)).
+
+    (* `imf_layer == max_imfs - 1` *)
+    Definition cap_test_m (L : nat) : bool := match k with Some k1 => (L =? S k1 - 1)%nat | None => false end.
+
+    (* what imf holds after the layers acc *)
+    Definition imf_ok (L : nat) (imfv : val V) (acc : list V) : Prop :=
+      match L with
+      | O => imfv = VList [] /\ acc = []
+      | S _ => cols_of imfv = Some acc
+      end.
+
+    (* segment A: sd and amp *)
+    Lemma mask_stepA : forall fb L r imfv sdv junk acc, imf_ok L imfv acc ->
+      let sd' := if is_ratio_imf mode && (0 <? L)%nat then VOpaque "std" [VSig (last acc vzero)] else sdv in
+      let ampo := match ma with
+                  | None => Some (VOpaque "amp" [VOpaque "mask_amp" []; sd'])
+                  | Some l => match nth_error l L with
+                              | Some a => Some (VOpaque "amp" [amp_entry V a; sd'])
+                              | None => None
+                              end
+                  end in
+      let w := exec_list mask_prims mask_segA fb (mask_head [("imf", imfv)] L r sdv true junk) in
+      match ampo with
+      | None => w = Raise "IndexError"
+      | Some amp => exists e1, w = Normal e1 /\
+                      e1 = mask_head [("imf", imfv); ("amp", amp)] L r sd' true (fun x => lookup x e1)
+      end.
+    Proof.
+      intros fb L r imfv sdv junk acc HL sd' ampo w. subst sd' ampo w.
+      unfold mask_head, imf_ok in *.
+      destruct mode; cbn [andb is_ratio_imf mode_str];
+        (destruct L as [|L']; [destruct HL as [-> ->]|]); cbn [Nat.ltb Nat.leb];
+        (destruct ma as [l|] eqn:Ema; [destruct (nth_error l _) as [a|] eqn:Ea|]);
+        first [ eexists; split; [ev; steps; reflexivity | ev; reflexivity] | ev; steps; reflexivity ].
+    Qed.
+
+    (* segment B: the extraction, the column accumulation, the new residual *)
+    Lemma mask_stepB : forall fb L r imfv amp sdv junk acc, imf_ok L imfv acc ->
+      let w := exec_list mask_prims mask_segB fb
+                 (mask_head [("imf", imfv); ("amp", amp)] L r sdv true junk) in
+      match nth_error fs L with
+      | None => w = Raise "IndexError"
+      | Some z =>
+          match gm r z amp with
+          | None => w = Raise "EMDSiftCovergeError"
+          | Some (nxt, fl) =>
+              exists e2, w = Normal e2 /\
+                e2 = mask_head [("imf", match L with
+                                        | O => VSig nxt
+                                        | S _ => VOpaque "matrix" (map VSig (acc ++ [nxt]))
+                                        end);
+                                ("amp", amp); ("next_imf", VSig nxt)]
+                       L (vsub X (vsum V vzero vadd (acc ++ [nxt]))) sdv fl (fun x => lookup x e2)
+          end
+      end.
+    Proof.
+      intros fb L r imfv amp sdv junk acc HL w. subst w.
+      unfold mask_head, imf_ok in *.
+      destruct (nth_error fs L) as [z|] eqn:Ez; [destruct (gm r z amp) as [[nxt fl]|] eqn:Eg|];
+        (destruct L as [|L']; [destruct HL as [-> ->]|]);
+        first [ eexists; split; [ev; steps; reflexivity | ev; reflexivity] | ev; steps; reflexivity ].
+    Qed.
+
+    (* segment C: the two exit tests and the layer counter *)
+    Lemma mask_stepC : forall fb L r imfv amp nxt sdv fl junk,
+      exists e3,
+        exec_list mask_prims mask_segC fb
+          (mask_head [("imf", imfv); ("amp", amp); ("next_imf", VSig nxt)] L r sdv fl junk) = Normal e3 /\
+        e3 = mask_head [("imf", imfv)] (L + 1) r sdv (fl && negb (cap_test_m L) && negb (small nxt))
+               (fun x => lookup x e3).
+    Proof.
+      intros fb L r imfv amp nxt sdv fl junk. unfold mask_head, cap_test_m.
+      destruct k as [k1|]; [destruct (L =? S k1 - 1)%nat eqn:Ek|]; destruct (small nxt) eqn:Es; destruct fl;
+        (eexists; split; [ev; steps; reflexivity | ev; reflexivity]).
+    Qed.
+
+    (* one execution of the body *)
+    Lemma mask_body_step : forall fb L r imfv sdv junk acc, imf_ok L imfv acc ->
+      let e := mask_head [("imf", imfv)] L r sdv true junk in
+      let sd' := if is_ratio_imf mode && (0 <? L)%nat then VOpaque "std" [VSig (last acc vzero)] else sdv in
+      let ampo := match ma with
+                  | None => Some (VOpaque "amp" [VOpaque "mask_amp" []; sd'])
+                  | Some l => match nth_error l L with
+                              | Some a => Some (VOpaque "amp" [amp_entry V a; sd'])
+                              | None => None
+                              end
+                  end in
+      match ampo, nth_error fs L with
+      | Some amp, Some z =>
+          match gm r z amp with
+          | None => exec mask_prims mask_body fb e = Raise "EMDSiftCovergeError"
+          | Some (nxt, fl) =>
+              exists e', exec mask_prims mask_body fb e = Normal e' /\
+                e' = mask_head [("imf", match L with
+                                        | O => VSig nxt
+                                        | S _ => VOpaque "matrix" (map VSig (acc ++ [nxt]))
+                                        end)]
+                       (L + 1) (vsub X (vsum V vzero vadd (acc ++ [nxt]))) sd'
+                       (fl && negb (cap_test_m L) && negb (small nxt)) (fun x => lookup x e')
+          end
+      | _, _ => exec mask_prims mask_body fb e = Raise "IndexError"
+      end.
+    Proof.
+      intros fb L r imfv sdv junk acc HL e sd' ampo. subst e.
+      rewrite exec_spine, mask_segments, exec_list_app.
+      pose proof (mask_stepA fb L r imfv sdv junk acc HL) as HA. cbv zeta in HA. fold sd' in HA. fold ampo in HA.
+      destruct ampo as [amp|].
+      - destruct HA as (e1 & HA & He1). rewrite HA. rewrite exec_list_app. rewrite He1. clear HA He1.
+        pose proof (mask_stepB fb L r imfv amp sd' (fun x => lookup x e1) acc HL) as HB. cbv zeta in HB.
+        destruct (nth_error fs L) as [z|].
+        + destruct (gm r z amp) as [[nxt fl]|].
+          * destruct HB as (e2 & HB & He2). rewrite HB, He2. clear HB He2.
+            apply mask_stepC.
+          * rewrite HB. reflexivity.
+        + rewrite HB. reflexivity.
+      - rewrite HA. destruct (nth_error fs L); reflexivity.
+    Qed.
+
+    Lemma mask_test : forall imfv L r sdv cs junk,
+      eval_truth mask_prims (mask_head [("imf", imfv)] L r sdv cs junk) mask_cond = Ok cs.
+    Proof. intros. unfold mask_head. ev. reflexivity. Qed.
+
+    (* what imf holds at the loop head, after the layers in acc *)
+    Definition imf_at (acc : list V) : val V := match acc with [] => VList [] | _ => mat_val acc end.
+
+    Lemma imf_at_ok : forall acc, imf_ok (length acc) (imf_at acc) acc.
+    Proof. intros [|a t]; cbn [length imf_at imf_ok]; [split; reflexivity|apply cols_mat]. Qed.
+
+    Lemma imf_at_snoc : forall acc x,
+      imf_at (acc ++ [x]) =
+      match length acc with O => VSig x | S _ => VOpaque "matrix" (map VSig (acc ++ [x])) end.
+    Proof.
+      intros [|a t] x; [reflexivity|].
+      unfold imf_at. rewrite mat_val_snoc by discriminate.
+      destruct ((a :: t) ++ [x])%list eqn:E; [destruct t; discriminate|]. reflexivity.
+    Qed.
+
+    Lemma residual_snoc_m : forall acc x, resid (acc ++ [x]) = vsub X (vsum V vzero vadd (acc ++ [x])).
+    Proof. intros [|a t] x; reflexivity. Qed.
+
+    Lemma cap_test_m_spec : forall L,
+      cap_test_m L = match cap with Some c => (L + 1 =? c)%nat | None => false end.
+    Proof.
+      intros L. unfold cap_test_m. destruct k as [k1|]; [|reflexivity]. cbn [option_map].
+      destruct (L =? S k1 - 1)%nat eqn:E1; destruct (L + 1 =? S k1)%nat eqn:E2; try reflexivity;
+        [apply Nat.eqb_eq in E1; apply Nat.eqb_neq in E2|apply Nat.eqb_neq in E1; apply Nat.eqb_eq in E2]; lia.
+    Qed.
+
+    (* sd at the loop head after the layers acc: untouched unless the mode is ratio_imf *)
+    Definition sd_head_ok (acc : list V) (sdv : val V) : Prop :=
+      (is_ratio_imf mode = false \/ acc = []) -> sdv = sd0.
+
+    (* the while loop against peel_loop with the per-layer extraction mask_extract, for every fuel *)
+    Lemma mask_while : forall fb f acc sdv junk, sd_head_ok acc sdv ->
+      let w := while_loop (fun e' => eval_truth mask_prims e' mask_cond)
+                          (fun e' => exec mask_prims mask_body fb e') f
+                          (mask_head [("imf", imf_at acc)] (length acc) (resid acc) sdv true junk) in
+      let (acc', fl) := peel f cap X acc in
+      if out_of_fuel fl then w = OutOfFuel
+      else if raised fl then w = Raise "EMDSiftCovergeError" \/ w = Raise "IndexError"
+      else acc' <> [] /\
+           exists sdv' junk', w = Normal (mask_head [("imf", imf_at acc')] (length acc') (resid acc') sdv' false junk').
+    Proof.
+      intros fb. induction f as [|f IH]; intros acc sdv junk Hsd w; subst w.
+      - cbn [peel_loop out_of_fuel]. rewrite while_loop_unfold, mask_test. reflexivity.
+      - cbn [peel_loop]. rewrite while_loop_unfold, mask_test.
+        pose proof (mask_body_step fb (length acc) (resid acc) (imf_at acc) sdv junk acc (imf_at_ok acc)) as Hs.
+        cbv zeta in Hs.
+        unfold SkeletonPrims.mask_extract at 1. unfold SkeletonPrims.amp_at, SkeletonPrims.sd_at.
+        assert (Hsdv : (if is_ratio_imf mode && (0 <? length acc)%nat
+                        then VOpaque "std" [VSig (last acc vzero)] else sdv) =
+                       (if is_ratio_imf mode && (0 <? length acc)%nat
+                        then VOpaque "std" [VSig (last acc vzero)] else sd0)).
+        { destruct (is_ratio_imf mode) eqn:Er; cbn [andb].
+          - destruct acc as [|a t]; cbn [length Nat.ltb Nat.leb]; [|reflexivity]. apply Hsd. right. reflexivity.
+          - apply Hsd. left. exact Er. }
+        rewrite Hsdv in Hs. clear Hsdv.
+        set (sd' := if is_ratio_imf mode && (0 <? length acc)%nat
+                    then VOpaque "std" [VSig (last acc vzero)] else sd0) in *.
+        destruct (match ma with
+                  | None => Some (VOpaque "amp" [VOpaque "mask_amp" []; sd'])
+                  | Some l => match nth_error l (length acc) with
+                              | Some a => Some (VOpaque "amp" [amp_entry V a; sd'])
+                              | None => None
+                              end
+                  end) as [amp|].
+        + destruct (nth_error fs (length acc)) as [z|].
+          * destruct (gm (resid acc) z amp) as [[nxt flg]|].
+            -- destruct Hs as (e' & He' & Hs). rewrite He'. clear He'.
+               rewrite <- imf_at_snoc, <- residual_snoc_m in Hs.
+               rewrite cap_test_m_spec in Hs.
+               replace (length acc + 1)%nat with (length (acc ++ [nxt])) in Hs
+                 by (rewrite app_length; reflexivity).
+               set (c := match cap with Some c0 => (length (acc ++ [nxt]) =? c0)%nat | None => false end) in *.
+               replace (flg && negb c && negb (small nxt)) with (negb (c || small nxt || negb flg)) in Hs
+                 by (destruct flg, c, (small nxt); reflexivity).
+               destruct (c || small nxt || negb flg).
+               ++ cbn [out_of_fuel raised]. split; [destruct acc; discriminate|].
+                  rewrite Hs. rewrite while_loop_unfold, mask_test. eexists. eexists. reflexivity.
+               ++ rewrite Hs. apply IH.
+                  intros [Hr|Hn]; [|destruct acc; discriminate].
+                  subst sd'. rewrite Hr. reflexivity.
+            -- cbn [out_of_fuel raised]. rewrite Hs. left. reflexivity.
+          * cbn [out_of_fuel raised]. rewrite Hs. right. reflexivity.
+        + cbn [out_of_fuel raised].
+          destruct (nth_error fs (length acc)); rewrite Hs; right; reflexivity.
+    Qed.
+
+    Lemma mask_prefix : forall f,
+      exists junk,
+        exec_list mask_prims mask_pre f (mask_env0 k rmf X o) =
+        Normal (mask_head [("imf", VList [])] 0 X sd0 true junk).
+    Proof.
+      intros f. exists (fun _ => None). unfold mask_head. ev. steps. reflexivity.
+    Qed.
+
+    Lemma mask_suffix : forall f L r m sdv junk,
+      exec_list mask_prims mask_post f (mask_head [("imf", m)] L r sdv false junk) =
+      Return (if rmf then VList [m; VList fs] else m).
+    Proof. intros. unfold mask_head. destruct rmf; ev; steps; reflexivity. Qed.
+
+    (* THE TIE for mask_sift's outer loop, for every fuel *)
+    Theorem skeleton_mask_sift_refines : forall f,
+      mask_agrees fs rmf (exec mask_prims prog_mask_sift f (mask_env0 k rmf X o)) (peel f cap X []).
+    Proof.
+      intros f. rewrite (exec_split _ _ _ _ _ _ _ _ _ mask_split_ok).
+      destruct (mask_prefix f) as (junk & Hpre). rewrite Hpre.
+      cbn [exec].
+      pose proof (mask_while f f [] sd0 junk (fun _ => eq_refl)) as Hw. cbv zeta in Hw.
+      change (length (@nil V)) with 0%nat in Hw. change (resid []) with X in Hw.
+      change (imf_at []) with (@VList V []) in Hw.
+      unfold mask_agrees.
+      destruct (peel f cap X []) as [acc' fl].
+      destruct (out_of_fuel fl); [rewrite Hw; reflexivity|].
+      destruct (raised fl); [destruct Hw as [Hw|Hw]; rewrite Hw; [left|right]; reflexivity|].
+      destruct Hw as (Hne & sdv' & junk' & Hw). rewrite Hw.
+      destruct acc' as [|a t]; [contradiction|].
+      change (imf_at (a :: t)) with (mat_val (a :: t)).
+      apply mask_suffix.
+    Qed.
+  End Fixed.
+End MaskTie.
